@@ -9,7 +9,7 @@ import builtins as _b
 
 from . import core
 from .core import SymInt, SymBool, EngineError, ite, truth
-from .seq import SymSeq, mk_seq, items_of, sym_index, hex_items, _byte, SymDict
+from .seq import SymSeq, mk_seq, items_of, sym_index, hex_items, _byte, SymDict, SymSet, is_symkey, deep_eq
 
 
 class _SubclassProxy:
@@ -578,6 +578,13 @@ def _symkey(k):
 
 
 def rt_in(x, container):
+    if isinstance(container, (SymDict, SymSet)):
+        return x in container
+    if isinstance(x, tuple) and is_symkey(x) and isinstance(container, (_b.dict, _b.set, _b.frozenset, _b.list, _b.tuple)):
+        for k in container:
+            if _b.bool(truth(deep_eq(x, k))):
+                return True
+        return False
     if _symkey(x) and isinstance(container, (_b.dict, _b.set, _b.frozenset)) and not isinstance(container, SymDict):
         return _dict_find(container, x) is not _NOKEY
     if isinstance(x, SymSeq) and x.concrete() and isinstance(container, (_b.dict, _b.set, _b.frozenset)):
@@ -729,11 +736,11 @@ def rt_format(s, *args, **kw):
 def make_builtins(import_hook):
     d = dict(vars(_b))
     d.update(
-        int=int_, bytes=bytes_, bytearray=bytearray_, str=str_,
+        int=int_, bytes=bytes_, bytearray=bytearray_, str=str_, set=SymSet, dict=SymDict,
         ord=ord_, chr=chr_, isinstance=isinstance_, min=min_, max=max_, pow=pow_, divmod=divmod_,
         hex=hex_, sum=sum_, repr=repr_, memoryview=memoryview_,
         __import__=import_hook,
         __symx_sub__=rt_subscript, __symx_ite__=rt_ite, __symx_mod__=rt_mod, __symx_join__=join_,
-        __symx_msg__=rt_msg, __symx_slice__=slice, __symx_in__=rt_in, __symx_get__=rt_get, __symx_format__=rt_format,
+        __symx_msg__=rt_msg, __symx_slice__=slice, __symx_dict__=SymDict, __symx_in__=rt_in, __symx_get__=rt_get, __symx_format__=rt_format,
     )
     return d
